@@ -245,6 +245,7 @@ class FakeBackend:
         self.log = log
         self.salt = salt
         self.returned = []  # objects handed to the core (identity used for pass-through detection)
+        self.ncalls = 0
         self.actor_ref = ActorRef(f"FakeBackend{idx}")
         self.uri_schemes = Const(list(spec["schemes"]))
         self.library = Provider(self, {"lookup_many": "lookup_many", "get_images": "get_images",
@@ -267,7 +268,8 @@ class FakeBackend:
 
     def request(self, key, args, kwargs):
         self.log.append([self.idx, key, canon_args(key, args, kwargs)])
-        return Future(self.spec["answers"].get(key, DEFAULT), self.salt + len(self.log), self.returned)
+        self.ncalls += 1
+        return Future(self.spec["answers"].get(key, DEFAULT), self.salt + self.ncalls, self.returned)
 
 
 class FakeMixer:
@@ -367,7 +369,7 @@ def canon_result(op, value, returned):
             return ["none"]
         c = canon_obj(value)
         return ["wrong", repr(type(value))] if c == "junk" else ["val", c[0], c[1]]
-    if name == "get_uri_schemes":
+    if name in ("get_uri_schemes", "core_schemes"):
         return ["strs", list(value)]
     if name in ("delete", "get_volume", "set_volume", "get_mute", "set_mute"):
         if value is None:
@@ -384,11 +386,21 @@ def canon_result(op, value, returned):
     raise ValueError(name)
 
 
-def run_case(case, salt=0):
+def make_fakes(case, log, salt):
+    """Default proxies: synchronous fakes.  Returns (backend proxies, mixer proxy or None,
+    list of lists of objects handed to the core)."""
+    fakes = [FakeBackend(i, spec, log, salt + 7 * i) for i, spec in enumerate(case["backends"])]
+    mixer_fake = None if case.get("mixer") is None else FakeMixer(case["mixer"], log, salt)
+    return fakes, mixer_fake, [f.returned for f in fakes] + ([mixer_fake.returned] if mixer_fake else [])
+
+
+def run_case(case, salt=0, make=make_fakes):
     """Returns {"outcome": ["ok", value] | ["raise", kind], "log": [...], "tables": ...}."""
     m = mods()
     log = []
-    fakes = [FakeBackend(i, spec, log, salt + 7 * i) for i, spec in enumerate(case["backends"])]
+    fakes, mixer_fake, returned_lists = make(case, log, salt)
+    index_of = {id(f): i for i, f in enumerate(fakes)}
+    settle = getattr(make, "settle", lambda: None)  # real actors: let every issued call be executed
     op = case["op"]
     returned = []
     try:
@@ -396,13 +408,12 @@ def run_case(case, salt=0):
     except BaseException as e:  # noqa: BLE001
         return {"outcome": ["raise", exc_kind(e)], "log": canon_log(log), "stage": "construct"}
     tables = {
-        name: sorted([s, b.idx] for s, b in getattr(backends, attr).items())
+        name: sorted([s, index_of[id(b)]] for s, b in getattr(backends, attr).items())
         for name, attr in (("lib", "with_library"), ("browse", "with_library_browse"),
                            ("playback", "with_playback"), ("playlists", "with_playlists"))
     }
     lib = m["library"].LibraryController(backends=backends, core=None)
     pls = m["playlists"].PlaylistsController(backends=backends, core=None)
-    mixer_fake = None if case.get("mixer") is None else FakeMixer(case["mixer"], log, salt)
     mix = m["mixer"].MixerController(mixer=mixer_fake)
     name = op["name"]
     try:
@@ -438,6 +449,12 @@ def run_case(case, salt=0):
             value = pls.refresh(op["scheme"])
         elif name == "get_uri_schemes":
             value = pls.get_uri_schemes()
+        elif name == "core_schemes":
+            import types
+
+            from mopidy.core.actor import Core
+
+            value = Core.get_uri_schemes(types.SimpleNamespace(backends=backends))
         elif name == "get_volume":
             value = mix.get_volume()
         elif name == "set_volume":
@@ -451,11 +468,11 @@ def run_case(case, salt=0):
     except BaseException as e:  # noqa: BLE001
         if isinstance(e, ValueError) and not isinstance(e, m["exceptions"].ValidationError) and str(e) == name:
             raise
+        settle()
         return {"outcome": ["raise", exc_kind(e)], "log": canon_log(log), "tables": tables, "stage": "call"}
-    for f in fakes:
-        returned.extend(f.returned)
-    if mixer_fake is not None:
-        returned.extend(mixer_fake.returned)
+    settle()
+    for lst in returned_lists:
+        returned.extend(lst)
     return {"outcome": ["ok", canon_result(op, value, returned)], "log": canon_log(log), "tables": tables,
             "stage": "call"}
 
